@@ -11,6 +11,8 @@ from pathlib import Path
 sys.path.insert(0, "/verif")
 os.chdir("/verif")
 PIDS = [c["property_id"] for c in json.load(open("MANIFEST.json"))["checks"]]
+if os.environ.get("XSA_PIDS"):  # developer aid: restrict the matrix to some checks
+    PIDS = [p for p in PIDS if p in os.environ["XSA_PIDS"].split()]
 
 
 def one(patch: str) -> dict:
